@@ -123,7 +123,13 @@ def run(item):
                 kw['filename'] = supplied['filename'] = 'supplied.file'
             if c.branch(z3.Bool('has_nchar')):
                 kw['nchar'] = supplied['nchar'] = SymInt(N)
-            raise TextXError('boom', **kw)
+            # the class of the error the processor raises (the subclasses forward the location themselves)
+            info['error_class'] = 'TextXError'
+            if c.branch(z3.Bool('raises_semantic_error')):
+                info['error_class'] = 'TextXSemanticError'
+            elif c.branch(z3.Bool('raises_syntax_error')):
+                info['error_class'] = 'TextXSyntaxError'
+            raise error_class(info['error_class'])('boom', **kw)
         proc = textxerror_wrap(failing) if wrap else failing
         if target == 'obj':
             mm.register_obj_processors({'Val': proc, 'Box': proc})
@@ -194,7 +200,8 @@ def run(item):
             expect('nchar', err.nchar, supplied['nchar'].t, 'supplied')
         if problems:
             return ('bad', {'problems': problems, 'index': info['index'], 'supplied': sorted(supplied),
-                            'what': info.get('what', info.get('value')), 'prior': info.get('prior', False)})
+                            'what': info.get('what', info.get('value')), 'prior': info.get('prior', False),
+                            'error_class': info.get('error_class', 'TextXError')})
         return ('ok', None)
     try:
         outs = ctx.explore(path)
@@ -222,7 +229,12 @@ def classify(b):
     return None
 
 
-def replay_case(item, index, supplied_fields, prior=False):
+def error_class(name):
+    import textx.exceptions as X
+    return getattr(X, name)
+
+
+def replay_case(item, index, supplied_fields, prior=False, err_cls='TextXError'):
     """concrete replay: the same failure with concrete supplied values"""
     ti, target, wrap, from_file = item[:4]
     grammar_file = len(item) > 5 and item[5]
@@ -254,7 +266,7 @@ def replay_case(item, index, supplied_fields, prior=False):
             info['pos'], info['end'] = x._tx_position, x._tx_position_end
         if wrap:
             raise ValueError('boom')
-        raise TextXError('boom', **{k: vals[k] for k in supplied_fields})
+        raise error_class(err_cls)('boom', **{k: vals[k] for k in supplied_fields})
     proc = textxerror_wrap(failing) if wrap else failing
     mm.register_obj_processors({'Val': proc, 'Box': proc} if target == 'obj' else {'Num': proc})
     if prior:
@@ -332,7 +344,8 @@ def main():
             if 'index' not in b:
                 chk.violation('%s: %s' % (r['case'], b), {'item': r['item'], 'detail': b})
                 continue
-            bad, detail = replay_case(r['item'], b['index'], b.get('supplied', []), b.get('prior', False))
+            bad, detail = replay_case(r['item'], b['index'], b.get('supplied', []), b.get('prior', False),
+                                      b.get('error_class', 'TextXError'))
             chk.cov['traces_validated_against_impl'] += 1
             if not bad:
                 chk.cov['model_mismatches'] += 1
@@ -349,7 +362,8 @@ def main():
             if len(chk.violations) < 6:
                 chk.violation('%s, failing element #%d (%s), processor supplied %s: %s' % (
                     r['case'], b['index'], b.get('what'), b.get('supplied'), detail),
-                    {'item': r['item'], 'index': b['index'], 'supplied': b.get('supplied', []), 'prior': b.get('prior', False)})
+                    {'item': r['item'], 'index': b['index'], 'supplied': b.get('supplied', []), 'prior': b.get('prior', False),
+                     'error_class': b.get('error_class', 'TextXError')})
         chk.sample({'case': r['case'], 'paths': r['paths'], 'discharged': r['ok']})
     chk.cov['paths_explored'] = paths
     chk.cov['distinct_nontrivial'] = paths
@@ -361,4 +375,5 @@ def main():
 
 
 def replay(data):
-    return replay_case(data['item'], data['index'], data.get('supplied', []), data.get('prior', False))
+    return replay_case(data['item'], data['index'], data.get('supplied', []), data.get('prior', False),
+                       data.get('error_class', 'TextXError'))
